@@ -81,6 +81,17 @@ def gen(rng, tier):
                 if rng.random() < 0.3:
                     ops.insert(len(ops) - 1, ['setcov'])
                 ops += [['cov'], ['merge'], ['ivs'], ['count', t[0], t[1]], ['cov']]
+        # an insert whose start is the start of one stored interval and whose stop is the stop of ANOTHER one (both
+        # endpoints already present in the sorted endpoint arrays, the interval itself new; it may bridge two merged
+        # blocks), with the coverage cached just before and read just after, before or after a merge
+        if cur and rng.random() < 0.35:
+            a0 = rng.choice(cur)[0]
+            bs = [e for (_s, e) in cur if e > a0]
+            if bs:
+                b0 = rng.choice(bs)
+                if rng.random() < 0.5:
+                    ops.append(['merge'])
+                ops += [['setcov'], ['ins', a0, b0, nid], ['cov'], ['merge'], ['ivs'], ['cov']]; nid += 1; cur.append((a0, b0))
         for _ in range(rng.randint(2, 10)):
             r = rng.random()
             pts = G.points(cur, mode)
